@@ -17,7 +17,8 @@ PROPS = {}
 
 # which Verus units a fallback part can stand in for (a fallback part is skipped when none of them is undecided)
 FALLBACK_FOR = {('kani', 'api'): {'xoshiro', 'xorshift'}, ('diff', 'jitter'): {'jitter'}, ('kani', 'hc128_incrate'): {'hc128'},
-                ('kani', 'isaac_incrate'): {'isaac'}, ('kani', 'isaac64_incrate'): {'isaac64'}, ('diff', 'isaac'): {'isaac', 'isaac64'}}
+                ('kani', 'isaac_incrate'): {'isaac'}, ('kani', 'isaac64_incrate'): {'isaac64'}, ('diff', 'isaac'): {'isaac', 'isaac64'},
+                ('diff', 'stream'): {'xoshiro', 'xorshift', 'hc128', 'isaac', 'isaac64'}}
 
 
 def run_part(part, seed=0, tier='quick', threads=16, prop=None, stop_on_failure=False, only=None):
@@ -34,6 +35,8 @@ def run_part(part, seed=0, tier='quick', threads=16, prop=None, stop_on_failure=
         from . import cex
         if part[1] == 'isaac':
             return cex.isaac_diff_part()
+        if part[1] == 'stream':
+            return cex.stream_diff_part()
         return cex.jitter_diff_part(prop, seed=seed)
     if kind == 'static':
         from . import static
@@ -93,7 +96,7 @@ TB_KANI = ['T9 Kani 0.68 / CBMC 6.11: every harness runs with unwinding assertio
 ALL_UNITS = [('verus', u) for u in ('xoshiro', 'xorshift', 'jitter', 'hc128', 'isaac', 'isaac64')]
 
 reg('C05', [('verus', 'xoshiro'), ('verus', 'xorshift'), ('verus', 'jitter'), ('verus', 'isaac'), ('verus', 'isaac64'), ('kani', 'blockrng')],
-    thorough=[('verus', 'xoshiro'), ('verus', 'xorshift'), ('verus', 'jitter'), ('verus', 'isaac'), ('verus', 'isaac64'), ('kani', 'blockrng'), ('kani', 'api')], fallback=[('kani', 'api')],
+    thorough=[('verus', 'xoshiro'), ('verus', 'xorshift'), ('verus', 'jitter'), ('verus', 'isaac'), ('verus', 'isaac64'), ('kani', 'blockrng'), ('kani', 'api'), ('diff', 'stream')], fallback=[('diff', 'stream'), ('kani', 'api')],
     level='proof', trusted_base=TB_COMMON + TB_RC + TB_JIT + TB_KANI,
     explanation='trait-level stream-projection contracts (s32/s64/sfill) on every generator; rand_core next_u64_via_u32 / fill_bytes_via_next verified once, generically, for all n (deterministic and relational flavour); BlockRng/BlockRng64 next_u32/next_u64 complete on the real rand_core (dummy core with arbitrary blocks); BlockRng fill_bytes bounded (thorough tier)',
     assumptions=['BlockRng/BlockRng64::fill_bytes(n) is a bounded stand-in (2-word blocks, n <= 2 blocks + tail), never counted as proved; parametricity in the block length is argued',
